@@ -13,6 +13,9 @@ def _root_local(body, l, seen=None, stop_at=None):
         if (1 <= l <= body.arg_count) or l == stop_at:
             return l
         defs = [s for (_, _, s) in body.iter_stmts() if s["k"] == "assign" and s["p"]["l"] == l and not s["p"]["pr"]]
+        # a local that is (also) defined by a call result is not a plain alias
+        if any(blk["t"]["k"] == "call" and blk["t"].get("dest") and blk["t"]["dest"]["l"] == l and not blk["t"]["dest"]["pr"] for blk in body.blocks):
+            return l
         if len(defs) != 1:
             return l
         r = defs[0]["r"]
